@@ -1858,6 +1858,10 @@ func run(e *ev.Env) {
 			e.Corpus(fmt.Sprintf("rawline-odd-%d", i), func(c *ev.Case) { rawline(e, c, i) })
 		}
 	}
+	for i, f := range [][]string{{"", "%"}, {" ", "%"}, {"%", ""}, {"", "", "%"}, {"%"}, {"\t", "%", " "}} {
+		f := f
+		e.Corpus(fmt.Sprintf("cookielines-blank-%d", i), func(c *ev.Case) { cookieLines(e, c, f) })
+	}
 	e.Corpus("samename-two-paths", func(c *ev.Case) { sameName(e, c, 2, false) })
 	e.Corpus("samename-three-paths", func(c *ev.Case) { sameName(e, c, 3, false) })
 	e.Corpus("samename-excepted", func(c *ev.Case) { sameName(e, c, 2, true) })
@@ -1927,12 +1931,14 @@ func run(e *ev.Env) {
 
 	e.Cases("twokeys", e.N(320, 20000), func(c *ev.Case) { twoKeys(e, c) })
 
+	e.Cases("cookielines", e.N(1200, 60000), func(c *ev.Case) { cookieLines(e, c, nil) })
+
 	e.Cases("conc", e.N(96, 3000), func(c *ev.Case) { conc(e, c) })
 	concThresholds(e)
 
 	if e.Only == "" {
 		for _, name := range []string{"wire_ciphertext_only", "nonce_fresh", "roundtrip_ok_clean", "except_wire_identical", "except_request_identical",
-			"tamper_rejected", "tamper_substitution", "tamper_truncation", "tamper_extension", "tamper_other-key", "multi_duplicate_names", "multi_single_ok", "rawline_odd_attribute_ciphertext_only", "rawline_excepted_line_identical", "long_cookie_over_4096"} {
+			"tamper_rejected", "tamper_substitution", "tamper_truncation", "tamper_extension", "tamper_other-key", "multi_duplicate_names", "multi_single_ok", "rawline_odd_attribute_ciphertext_only", "rawline_excepted_line_identical", "long_cookie_over_4096", "cookielines_blank_line_first", "cookielines_several_non_blank_lines"} {
 			if seen[name] == 0 {
 				e.Inconclusive("never observed: " + name)
 			}
